@@ -78,6 +78,7 @@ S.cls("concurrent.futures.Executor", {}, external=True)
 # ---------------------------------------------------------------- helpers of the worker
 c = M.contract("_get_memory_usage")
 c.param("pid", T.Int).param("force_gc", T.Bool, default=VBool(False))
+c.requires("own-pid", "pid == os.getpid()")
 c.returns(T.Int).modifies()
 c.assumes("A-psutil")
 c.note("memory probe: only 'returns an int, touches nothing' is needed by the worker")
@@ -88,6 +89,7 @@ c.modifies()
 c = M.contract("_python_exit", props=["C05"])
 c.modifies(f"glob:{PE}._global_shutdown")
 c.ensures("exit/sets-global-shutdown", "_global_shutdown == True")
+c.trusted_summary = True
 
 c = M.contract("_rebuild_exc", props=["C04"])
 c.param("exc", T.Exc()).param("tb", T.Obj)
@@ -318,7 +320,7 @@ c.at_call("loky.process_executor:ProcessPoolExecutor._adjust_process_count", "un
           "held(log_arg('deref', 0, 1)._processes_management_lock)", prop=["C07", "C08"])
 c.raises("result/only-from-respawn", "BaseException", post=f"{PID}")
 c.modifies("contents(self.pending_work_items)", "contents(self.running_work_items)", "contents(self.processes)",
-           "G.fut_n_exc", "G.fut_n_res", "G.fut_exc", "G.fut_res", "G.sem_released", "G.joined", "G.started", "G.pid_live")
+           "G.fut_n_exc", "G.fut_n_res", "G.fut_exc", "G.fut_res", "G.sem_released", "G.joined", "G.started", "G.pid_live", "G.proc_of_pid")
 c.assumes("A-atomic")
 c.cover("pid-known", "is_int(result_item) and old(result_item in self.processes)")
 c.cover("result-known", "not is_int(result_item) and old(result_item.work_id in self.pending_work_items)")
@@ -339,7 +341,7 @@ c.ensures("adjust/fills-up-to-max", "len(self._processes) >= self._max_workers",
 c.ensures("adjust/keeps-existing-workers", KEEP.format(o="old"), prop=["C08", "C10"])
 c.ensures("adjust/new-workers-are-started", NEWSTARTED.format(o="old"), prop="C08")
 c.raises_only("adjust/no-exception")
-c.modifies("contents(self._processes)", "G.started", "G.pid_live")
+c.modifies("contents(self._processes)", "G.started", "G.pid_live", "G.proc_of_pid")
 i = M.invariant(f"{PPE}._adjust_process_count", 0, "while len(self._processes) < self._max_workers:")
 i.inv("bound", "len(self._processes) <= max(at_entry(len(self._processes)), self._max_workers) and len(self._processes) >= at_entry(len(self._processes))", prop="C08")
 i.inv("registered-pids-are-live", "forall(Int, lambda k: implies(k in self._processes, G.pid_live[k]))")
@@ -411,16 +413,16 @@ c.modifies()
 
 # ---------------------------------------------------------------- kill_workers (C02, C06)
 PROCS_EMPTY = "len(self.processes) == 0"
-ALL_KILLED = "forall(Int, lambda k: implies(old(k in self.processes), G.killed[old(self.processes[k])] and G.joined[old(self.processes[k])]))"
+ALL_KILLED = "forall(Int, lambda k: implies(old(k in self.processes), G.killed[old(self.processes[k]).pid] and G.joined[old(self.processes[k])]))"
 c = M.contract(f"{EMT}.kill_workers", props=["C02", "C06"])
 c.param("self", T.Ref(EMT)).param("reason", T.Str, default=VStr(""))
 c.ensures("kill/no-worker-left-registered", PROCS_EMPTY)
 c.ensures("kill/every-worker-tree-killed-and-reaped", ALL_KILLED)
 c.raises_only("kill/no-exception")
-c.modifies("contents(self.processes)", "G.killed", "G.joined")
+c.modifies("contents(self.processes)", "G.killed", "G.joined", "G.ps_killed", "G.pid_live")
 i = M.invariant(f"{EMT}.kill_workers", 0, "while self.processes:")
 i.inv("removed-are-killed", "forall(Int, lambda k: implies(old(k in self.processes) and not (k in self.processes), "
-      "G.killed[old(self.processes[k])] and G.joined[old(self.processes[k])]))")
+      "G.killed[old(self.processes[k]).pid] and G.joined[old(self.processes[k])]))")
 i.inv("remaining-are-original", "forall(Int, lambda k: implies(k in self.processes, old(k in self.processes) and self.processes[k] is old(self.processes[k])))")
 i.variant("len(self.processes)")
 
@@ -440,7 +442,7 @@ c.ensures("terminate/workers-killed-then-internals-joined",
           "log_before('call:_ExecutorManagerThread.kill_workers', 'call:_ExecutorManagerThread.join_executor_internals')")
 c.ensures("terminate/workers-gone", PROCS_EMPTY + " and " + ALL_KILLED)
 c.modifies("self.executor_flags.shutdown", "self.executor_flags.broken", "contents(self.pending_work_items)", "contents(self.processes)",
-           "G.fut_n_exc", "G.fut_exc", "G.killed", "G.joined", "G.sem_released", "G.n_sentinels", "self.thread_wakeup._closed", "G.pid_live")
+           "G.fut_n_exc", "G.fut_exc", "G.killed", "G.joined", "G.sem_released", "G.n_sentinels", "self.thread_wakeup._closed", "G.pid_live", "G.ps_killed")
 c.raises("terminate/only-from-joining-internals", "BaseException")
 c.assumes("A-atomic")
 i = M.invariant(f"{EMT}.terminate_broken", 0, "for work_item in self.pending_work_items.values():")
@@ -469,7 +471,7 @@ c.ensures("forced/no-fabricated-result", "G.fut_n_res == old(G.fut_n_res) and G.
 c.ensures("forced/all-workers-killed-and-reaped", f"implies({KW}, {PROCS_EMPTY} and {ALL_KILLED})", prop="C06")
 c.raises_only("shutdown/no-exception")
 c.modifies("self.executor_flags.shutdown", "self.executor_flags.kill_workers", "contents(self.pending_work_items)", "contents(self.processes)",
-           "G.fut_n_exc", "G.fut_exc", "G.killed", "G.joined")
+           "G.fut_n_exc", "G.fut_exc", "G.killed", "G.joined", "G.ps_killed", "G.pid_live")
 c.assumes("A-atomic")
 i = M.invariant(f"{EMT}.flag_executor_shutting_down", 0, "while self.pending_work_items:")
 i.inv("removed-futures-failed", "forall(Int, lambda k: implies(old(k in self.pending_work_items) and not (k in self.pending_work_items), "
@@ -592,7 +594,7 @@ c.at_call(f"{PE}:{PPE}._adjust_process_count", "under-management-lock", "held(se
 c.ensures("ensure/adjusts-under-the-management-lock",
           "log_arg('acquire', 0, 0) is self._processes_management_lock and log_pos('acquire', 0) == 0 and log_tags()[-1] == 'release'", prop="C08")
 c.raises_only("ensure/no-exception")
-c.modifies("contents(self._processes)", "G.started", "G.pid_live", "self._executor_manager_thread", f"glob:{PE}.process_pool_executor_at_exit")
+c.modifies("contents(self._processes)", "G.started", "G.pid_live", "G.proc_of_pid", "self._executor_manager_thread", f"glob:{PE}.process_pool_executor_at_exit")
 
 c = M.contract(f"{PPE}.submit", props=["C02", "C03", "C05", "C07", "C08"])
 c.param("self", T.Ref(PPE)).param("fn", T.Obj).varargs("args").kwargs("kwargs")
@@ -627,7 +629,7 @@ c.ensures("submit/rep-invariants-kept", "forall(Int, lambda k: implies(G.work_id
           "forall(Int, lambda k: implies(k in self._pending_work_items, k < self._queue_count))", prop="C03")
 c.ensures("submit/under-the-shutdown-lock", "log_arg('acquire', 0, 0) is self._flags.shutdown_lock and log_pos('acquire', 0) == 0", prop="C03")
 c.ensures("submit/pool-topped-up", "len(self._processes) >= self._max_workers", prop=["C07", "C08"])
-c.modifies("self._queue_count", "contents(self._pending_work_items)", "G.work_ids", "contents(self._processes)", "G.started", "G.pid_live",
+c.modifies("self._queue_count", "contents(self._pending_work_items)", "G.work_ids", "contents(self._processes)", "G.started", "G.pid_live", "G.proc_of_pid",
            "self._executor_manager_thread", f"glob:{PE}.process_pool_executor_at_exit")
 c.cover("healthy", "True")
 c.twin("submit/only-on-a-healthy-executor", "old(self._flags.shutdown)")
